@@ -1,9 +1,11 @@
 Require Import ExtrOcamlBasic.
-From SharkV Require Import ListAux C03Model C12Model C12Folds.
+From SharkV Require Import ListAux C03Model C12Model C12Folds C03Heap.
 Extraction "c03_model.ml" opt_sizes batch_partitioning create repartition split_batch splice append reorder
   indexed_subset complement split_at_element element it_deref it_incr it_decr it_advance transform
   repartition_by_class class_sizes elems nelems sizes
   cv_same_size cv_indexed cv_fully_indexed cv_balanced cv_batch validation training
   cv_iid cv_create req_valid req_k scv_create s_validation s_training
   valid_members valid_perm view_to_dataset binary_indices indexed_order
-  binary_sub_problem view_of view_subset view_get vi_dataset_index to_dataset class_order class_order_loop repartition_by_class_loop.
+  binary_sub_problem view_of view_subset view_get vi_dataset_index to_dataset class_order class_order_loop repartition_by_class_loop
+  step contents hnd init independent cv_indexed_shared cv_batch_shared fold_validation_shared fold_training_shared
+  view_shared view_write.
